@@ -7,6 +7,8 @@
   D4 R-WHO   process-wide registries are written only on the init / registration
              path, never from the compile or run path
   D5 R-ATOM  a location read outside a mutex and written inside it is atomic
+  D6 R-LOCK  orc_init runs every initialiser with the global mutex held and publishes its
+             once flag only after they have finished
 """
 from facts import ASSIGN_OPS, AnalysisBroken, access_path, strip_casts, unparse, root_var
 from flow import Facts
@@ -286,6 +288,53 @@ def run(ctx):
                                   "`%s` (type %s) is read outside the %s mutex and written inside it: a data race in the C11 sense (double-checked locking on a plain variable)" %
                                   (key, n.ty, mutex), line=n.line)
     rep.ok("D5-ATOMIC-FLAG", "orc/", "scan", "%d unlocked reads of lock-written variables found in lock-taking functions" % n5)
+
+    # ---- D6: library initialisation is serialised ----------------------------------
+    oi = db.func("orc_init", "orc")
+    rep.saw(oi)
+    ls = LockState(oi, "global")
+    inits = []
+    for c in oi.calls():
+        if not c.name or c.name in LOCK:
+            continue
+        tgt = cg.byname.get(c.name)
+        if not tgt:
+            continue
+        if any(True for g in cg.reachable([c.name]) for _n, kind, _k in writes_of(g) if kind == "global"):
+            inits.append(c)
+    if len(inits) < 5:
+        raise AnalysisBroken("orc_init: only %d initialiser calls recognised" % len(inits))
+    fco = Facts(oi)
+
+    def once_region(c):
+        """inside `if (!orc_once_enter (...)) { ... orc_once_leave (...) }`: serialised by the once mutex."""
+        ent = any(x[0] != "switch" and strip_casts(x[0]).k == "CallExpr" and strip_casts(x[0]).name == "orc_once_enter" and x[1] is False for x in fco.conds(c))
+        return ent and not any(oi.dominates(l, c) for l in oi.calls("orc_once_leave"))
+    for c in inits:
+        rep.check(ls.held_at(c) is True or once_region(c), "D6-INIT-SERIALISED", where(oi), "%s-under-lock" % c.name,
+                  "%s() runs with the global mutex held" % c.name,
+                  "orc_init calls %s() without holding the global mutex: a second thread entering orc_init concurrently either runs the "
+                  "initialisers again or returns and uses a half-initialised library" % c.name, line=c.line)
+    # the once flag: static local tested in orc_init
+    flags = {n.name for n in oi.walk() if n.k == "DeclRefExpr" and n.get("dk") == "static_local"}
+    for fl in sorted(flags):
+        reads_unlocked = [n for n in oi.walk() if n.k == "DeclRefExpr" and n.name == fl and ls.held_at(n) is not True and
+                          not (n.parent is not None and n.parent.k in ("BinaryOperator", "CompoundAssignOperator") and n.parent.op in ASSIGN_OPS and strip_casts(n.parent.c[0]) is n)]
+        sets = [n for n, kind, key in writes_of(oi) if kind == "global" and key == fl and not (n.k == "BinaryOperator" and strip_casts(n.c[1]).v == 0)]
+        if not sets:
+            raise AnalysisBroken("orc_init: the once flag %s is never set" % fl)
+        for st in sets:
+            pos = oi.pos(st)
+            later = [c for c in inits if oi.pos(c) and (oi.pos(c)[0] in oi.reachable_blocks(pos[0]) and not (oi.pos(c)[0] == pos[0] and oi.pos(c)[1] < pos[1]))]
+            held_through = ls.held_at(st) is True and not reads_unlocked
+            # publishing early is harmless only while every reader needs the mutex and the setter keeps it until the initialisers are done
+            unlocked_between = [c for c in later if ls.held_at(c) is not True and not once_region(c)]
+            ok = not later or (held_through and not unlocked_between)
+            rep.check(ok, "D6-INIT-SERIALISED", where(oi), "%s-set-after-init" % fl,
+                      "the once flag is published only after the initialisers (or under a mutex every reader takes and that is kept until they finish)",
+                      "orc_init sets `%s` before %s has run and a concurrent caller can observe it (flag read without the mutex, or mutex dropped "
+                      "before the initialisers finish): that caller returns from orc_init into an uninitialised library" % (fl, ", ".join(sorted({c.name for c in later}))[:120]),
+                      line=st.line)
 
 
 def _only_via_once_guard(cg, f, reach_init, depth=0):
